@@ -325,6 +325,7 @@ Scenario gen_c18(uint64_t seed, uint64_t index, bool relaxed) {
 	// the caller may have SIGTERM ignored or blocked; children inherit both through posix_spawn
 	if (r.coin(1, 8)) sc.sigterm_inherited = 1 + (int)r.below(2);
 	sc.heap_fill = r.coin(1, 2) ? (int)r.below(3) : 0;
+	if (r.coin(1, 8)) sc.term_immune.emplace_back((int)r.below(4), (int)r.below((uint32_t)c.ninputs));
 	sc.output_symlink = r.coin(1, 10);
 	if (r.coin(1, 12)) sc.path_decoys.push_back(tool_name((int[]){PREPROCESS, CODEGEN, ASSEMBLE, LINK}[r.below(4)]));
 	for (int i = 0; i < c.ninputs; i++) {
